@@ -4,6 +4,7 @@ keep/eliminate masks, the diagonal Sylvester solver, and the run of a translated
 Core Lean only.
 -/
 import PymaVerif.Model.Dsl
+import PymaVerif.Model.Closure
 
 namespace Pyma
 namespace BlockDiag
@@ -61,11 +62,17 @@ def selected (p : Problem K) (b : Nat) : Bool :=
 def equalEigs (p : Problem K) (a b : Nat) : Bool :=
   Scalar.absLt (p.energy a - p.energy b) p.atol
 
+/-- equal within `atol`, inside one block -/
+def closeIn (p : Problem K) (a b : Nat) : Bool := p.blk a == p.blk b && p.equalEigs a b
+
+/-- what a fully diagonalised block keeps together: levels connected by steps below `atol` (`_transitive_closure` of `equal_eigs`) -/
+def sameLevel (p : Problem K) (a b : Nat) : Bool := Closure.closure p.d p.closeIn a b
+
 /-- is `(a,b)`, inside selected block, an eliminated element? -/
 def elim (p : Problem K) (a b : Nat) : Bool :=
   match p.fdEff with
   | .none => false
-  | .tuple _ => !p.equalEigs a b
+  | .tuple _ => !p.sameLevel a b
   | .dict l =>
       match l.find? (·.1 == p.blk a) with
       | some (_, m) => m.getD (a * p.d + b) false
